@@ -15,11 +15,11 @@ L = {
  "C09": ("PRE_IMAGE / POST_IMAGE on boolean, MT-integer-distance and EV+ operands and VM/MV_MULTIPLY on integer and real vectors, every relation rule, compared pointwise with the relational definition inside seeded histories.", "section 11 C09"),
  "C10": ("COPY for every ordered pair of forest kinds of the same shape (incl. distinct same-kind forests, EV+ and index-set sources), compared pointwise through the scalar conversion; there-and-back must give the identical edge when the model says nothing is lost.", "section 11 C10"),
  "C11": ("Iterators (with and without masks) as one-shot enumerations and as long-lived cursors advanced between other clients' operations, compared with the model's sorted list of non-default assignments; CARDINALITY in long/double/mpz against the model count; node/edge counts against an independent DAG walk.", "section 11 C11"),
- "C12": ("Differential: the same plan executed under a second, seed-chosen combination of storage flags, memory manager and deletion policy must give identical model-level observations and identical node/edge counts per result; every manager runs under the chunk monitor I7.", "section 11 C12"),
+ "C12": ("Differential: the same plan executed under a second, seed-chosen combination of storage flags, memory manager and deletion policy must give identical model-level observations, identical node/edge counts and an identical graph-shape hash (canonical structure up to renaming of node handles) per result; every manager runs under the chunk monitor I7.", "section 11 C12"),
  "C13": ("reorderVariables with all eight heuristics and both swap methods at arbitrary points with live edges and warm caches; afterwards the order is a permutation, every held edge evaluates to its model table under the new level map, other forests' edges are untouched, I2/I3/I4 hold.", "section 11 C13"),
- "C14": ("Roots (shared sub-graphs, terminal and repeated roots) written through an in-memory disk behind iostream and FILE* transports with seeded buffer cuts / short reads and read back into the same forest, another forest of the same kind or a forest created from the file; same functions in the same order, identical edges in the writing forest, I3+I4 on the receiving forest; one file in four is re-read with the input cut at every byte offset.", "section 11 C14 and 15.2"),
+ "C14": ("Roots (shared sub-graphs, terminal and repeated roots) written through an in-memory disk behind iostream and FILE* transports with seeded buffer cuts / short reads and read back into the same forest, another forest of the same kind or a forest created from the file; same functions in the same order, identical edges in the writing forest, I3+I4 on the receiving forest; one file in four is re-read with the input cut at every byte offset; half of the files stay on the simulated disk and are read again by later steps - after the writing forest was destroyed and re-created or after cleanup()/initialize(), where the file is the only surviving state - and the edges read are kept as held edges under I1/I2/I4.", "section 11 C14 and 15.2"),
  "C15": ("CONVERT_TO_INDEX_SET from fully- and quasi-reduced sources incl. empty/full sets inside seeded histories; numbering compared with the model's lexicographic numbering, getElement(i) for -1..n, cardinality of the index set.", "section 11 C15"),
- "C16": ("Misuse catalogue injected at arbitrary steps (operands from two domains, set/relation and range mismatches, wrong-shape result forest, value outside the terminal range, zero divisor met inside the recursion, infinite subtrahend, exhausted iterator, detached edge); a MEDDLY::error with the documented code must be raised, and all monitors keep holding for everything held before; one division misuse in three sweeps the zero divisor over every point of the domain.", "section 11 C16 and 15.2"),
+ "C16": ("Misuse catalogue injected at arbitrary steps (operands from two domains, set/relation and range mismatches, wrong-shape result forest, 24 binary and 3 unary operations with one operand or the result forest over another domain or of the other shape, value outside the terminal range, zero divisor met inside the recursion, infinite subtrahend, exhausted iterator, detached edge); a MEDDLY::error with the documented code must be raised, and all monitors keep holding for everything held before; one division misuse in three sweeps the zero divisor over every point of the domain.", "section 11 C16 and 15.2"),
  "C17": ("Forest and domain destruction, forest re-creation and cleanup()/initialize() restarts at arbitrary steps with edges, iterators and cached operations alive; identifiers strictly increase, destroyed forests are unregistered, detached edges are inert, survivors pass all monitors and no registered operation mentions a destroyed forest; every 12th plan (3rd in thorough) is also re-run with a destruction or a restart inserted at seed-chosen positions; AddressSanitizer watches every run.", "section 11 C17 and 15.2"),
  "C18": ("Stand-alone simulation of the five memory-manager styles at the granularities the library uses: seeded request/recycle schedules with neighbour-biased recycling, a shadow map of every live chunk (size, disjointness by address, content pattern re-verified at recycle and in periodic scans), and allocation failures injected through a malloc/realloc link-time seam inside requestChunk.", "section 11 C18"),
  "C20": ("pregen_relation built from seeded event lists (by events), SATURATION_FORWARD compared with the explicit closure under the union of the events and with REACHABLE_TRAD_NOFS on the union relation (same edge), other clients working in the forests between build and compute.", "section 11 C20"),
